@@ -139,7 +139,10 @@ def call_contract(ex, module, qualname, argskw, node, self_obj=None):
                 except Unsupported:
                     cand = None
                 if isinstance(cand, V):
-                    res, direct = V(vl.simp(cand.t)), en
+                    t = vl.simp(cand.t)
+                    if not ex.spec_mode:
+                        t = split_value(ex, t, 3)
+                    res, direct = V(t), en
                     break
     if res is None:
         res = result_value(ex, c, key)
@@ -154,6 +157,22 @@ def call_contract(ex, module, qualname, argskw, node, self_obj=None):
             post = split_ite(ex, post, 3)
         ex.assume(post)
     return res
+
+
+def split_value(ex, t, depth):
+    """a callee result of the form ite(c, a, b) (possibly under one constructor): fork on c so
+    that every path works with a definite value (keeps string VCs free of merged alternatives)"""
+    if depth == 0:
+        return t
+    inner, wrap = t, (lambda x: x)
+    if z3.is_app(t) and t.num_args() == 1 and t.decl().kind() == z3.Z3_OP_DT_CONSTRUCTOR:
+        inner, wrap = t.arg(0), (lambda x, d=t.decl(): d(x))
+    if z3.is_app(inner) and inner.decl().kind() == z3.Z3_OP_ITE:
+        c, a, b = inner.arg(0), inner.arg(1), inner.arg(2)
+        if ex.branch(c):
+            return split_value(ex, vl.simp(wrap(a)), depth - 1)
+        return split_value(ex, vl.simp(wrap(b)), depth - 1)
+    return t
 
 
 def split_ite(ex, post, depth):
